@@ -80,6 +80,7 @@ fn dispatch(cmd: &str, opts: &Opts) -> i32 {
         "C07" => props::c07::run(opts),
         "C15" => props::c15::run(opts),
         "C16" => props::c16::run(opts),
+        "C17" => props::c17::run(opts),
         "C18" => props::c18::run(opts),
         "C19" => props::c19::run(opts),
         "C20" => props::c20::run(opts),
